@@ -1,7 +1,12 @@
 // Instantiation TU for value boxing / unboxing: Cast_Helper_Inner<T>::cast for the catalogue of parameter forms,
 // Boxed_Value::Data construction through every Object_Data::get overload.
 #include <chaiscript/chaiscript_basic.hpp>
+#include <chaiscript/dispatchkit/bootstrap.hpp>
 using namespace chaiscript;
+// the registered `=` overloads that take their target as a plain Boxed_Value (no typed cast in front of them refuses a const target)
+template Boxed_Value chaiscript::bootstrap::ptr_assign<dispatch::Proxy_Function_Base>(Boxed_Value, const std::shared_ptr<dispatch::Proxy_Function_Base> &);
+template Boxed_Value chaiscript::bootstrap::ptr_assign<const dispatch::Proxy_Function_Base>(Boxed_Value, const std::shared_ptr<const dispatch::Proxy_Function_Base> &);
+extern "C" void *verif_force_unknown_assign() { return reinterpret_cast<void *>(&chaiscript::bootstrap::Bootstrap::unknown_assign); }
 template struct chaiscript::detail::Cast_Helper_Inner<int>;
 template struct chaiscript::detail::Cast_Helper_Inner<const int &>;
 template struct chaiscript::detail::Cast_Helper_Inner<int &>;
